@@ -217,3 +217,49 @@ Fixpoint resend_ok (p : policy) (idem : bool) (tr : list (event N)) : bool :=
 
 Definition prop_trace_ok (p : policy) (idem : bool) (nplan : nat) (tr : list (event N)) : bool :=
   resend_ok p idem tr && (List.length tr <=? nplan + same_target_budget p)%nat.
+
+(* "the driver sends exactly the attempts the policy decided", as a predicate on an observed trace
+   WITH the recorded decisions: the events walk the plan -- after RetrySameTarget the same target
+   again, after RetryNextTarget or a failed connection acquisition the successor in the plan, after
+   a success / DontRetry / IgnoreWriteError nothing -- and the result is the one the end of the
+   trace prescribes (pending iff targets are left).  [follow] = the prescribed result. *)
+Definition is_nil_ev (l : list (event N)) : bool := match l with [] => true | _ :: _ => false end.
+
+Fixpoint follow (plan : list N) (last : option last_err) (tr : list (event N)) {struct tr}
+  : option (fiber_result N) :=
+  match tr with
+  | [] => Some (match plan with [] => finish last | _ :: _ => RPending end)
+  | ev :: rest =>
+      match plan with
+      | [] => None
+      | t :: plan' =>
+          if negb (ev_target ev =? t)%N then None else
+          match ev with
+          | EvConnFail _ => follow plan' (Some LConn) rest
+          | EvAttempt _ _ AOk => if is_nil_ev rest then Some (RCompleted t) else None
+          | EvAttempt _ _ (AErr e d) =>
+              match d with
+              | RetrySameTarget _ => follow plan (Some (LAttempt e)) rest
+              | RetryNextTarget _ => follow plan' (Some (LAttempt e)) rest
+              | DontRetry => if is_nil_ev rest then Some (RFailed (LAttempt e)) else None
+              | IgnoreWriteError => if is_nil_ev rest then Some (RIgnoredWriteError t) else None
+              end
+          end
+      end
+  end.
+
+Definition last_err_eq_dec (a b : last_err) : {a = b} + {a <> b}.
+Proof. decide equality; apply attempt_error_eq_dec. Defined.
+Definition fiber_result_eq_dec (a b : fiber_result N) : {a = b} + {a <> b}.
+Proof. decide equality; auto using N.eq_dec, last_err_eq_dec. Defined.
+
+Definition followed_ok (plan : list N) (tr : list (event N)) (r : fiber_result N) : bool :=
+  match follow plan None tr with
+  | Some r' => if fiber_result_eq_dec r r' then true else false
+  | None => false
+  end.
+
+(* the whole property predicate of the hook tie: safe resend, serial, bound, decisions followed *)
+Definition prop_trace_full (p : policy) (idem : bool) (plan : list N) (tr : list (event N))
+           (r : fiber_result N) : bool :=
+  prop_trace_ok p idem (List.length plan) tr && followed_ok plan tr r.
